@@ -163,3 +163,63 @@ def reaches_under(cfg, starts, targets, stops, atom_value):
     todo.extend(nxt)
   return hit, unknown
 
+
+def reachable_with_flags(cfg, starts, targets, stops=(), follow_exc=True, env0=None):
+  """Is some node of `targets` reachable from `starts` when boolean *flag* locals are tracked?
+  A flag is a local assigned the constants True/False; along a path its last assignment is
+  remembered and `if` tests made of flags (with not/and/or) take only the branch that value
+  selects. Any other assignment to the name forgets it. `stops` are not passed. Exceptional
+  edges are followed when follow_exc. Returns a witness path (list of node ids) or None."""
+  def step_env(n, env):
+    s = n.stmt
+    if n.kind == "stmt" and isinstance(s, ast.Assign):
+      names = [t.id for t in s.targets if isinstance(t, ast.Name)]
+      if names:
+        env = dict(env)
+        for nm in names:
+          if isinstance(s.value, ast.Constant) and isinstance(s.value.value, bool):
+            env[nm] = s.value.value
+          else:
+            env.pop(nm, None)
+        return env
+    if n.kind in ("for", "with") or (n.kind == "stmt" and isinstance(s, (ast.AugAssign, ast.AnnAssign))):
+      killed = set()
+      for x in ast.walk(s.target if hasattr(s, "target") else s):
+        if isinstance(x, ast.Name) and isinstance(x.ctx, ast.Store):
+          killed.add(x.id)
+      if killed & set(env):
+        env = {k: v for k, v in env.items() if k not in killed}
+    return env
+  seen = set()
+  todo = [(a, tuple(sorted((env0 or {}).items())), (a,)) for a in starts]
+  while todo:
+    a, envt, path = todo.pop()
+    if (a, envt) in seen:
+      continue
+    seen.add((a, envt))
+    if a in targets:
+      return list(path)
+    if a in stops:
+      continue
+    n = cfg.nodes[a]
+    env = dict(envt)
+    nxt = set(cfg.succ[a])
+    if not follow_exc:
+      nxt = {b for b in nxt if (a, b) not in cfg.exc_edges}
+    if n.kind == "if" and a in cfg.if_true:
+      def av(e):
+        return env.get(e.id) if isinstance(e, ast.Name) else None
+      v = eval_test(n.stmt.test, av)
+      t, f = branch_successors(cfg, a)
+      exc = nxt - t - f
+      if v is True:
+        nxt = t | exc
+      elif v is False:
+        nxt = f | exc
+    env2 = step_env(n, env)
+    # an exceptional edge leaves before the node's own assignment took effect
+    for b in nxt:
+      e_use = env if (a, b) in cfg.exc_edges else env2
+      todo.append((b, tuple(sorted(e_use.items())), path + (b,)))
+  return None
+
